@@ -2,7 +2,7 @@
    `C05_history_inv_full` were open statements).  Model: coq/model/Mmr.v; specification: coq/spec/MmrSpec.v;
    proofs: coq/proofs/MmrAppend.v. *)
 From Coq Require Import ZArith List Bool.
-From TF Require Import Word MmrIdxLocal Mmr MmrSpec MmrTerm MmrNodes MmrProofs MmrUpdates MmrBatch MmrHistory MmrAppend.
+From TF Require Import Word MmrIndexGen MmrIndex MmrIdxLocal Mmr MmrSpec MmrTerm MmrNodes MmrProofs MmrUpdates MmrBatch MmrHistory MmrAppend MmrIdxTie.
 Import ListNotations.
 Open Scope Z_scope.
 
@@ -36,6 +36,11 @@ Theorem C05_batch_update_from_append : forall (D : Type) (H : D -> D -> D) (dflt
 Proof. exact batch_update_from_append_spec. Qed.
 Print Assumptions C05_batch_update_from_append.
 
+Example C05_batch_update_from_append_example :
+  batch_update_from_append term Node [[Atom 1]; [Atom 0]; []] [0; 1; 2] 3 (Atom 3) [Node (Atom 0) (Atom 1); Atom 2] =
+  Some ([[Atom 1; Node (Atom 2) (Atom 3)]; [Atom 0; Node (Atom 2) (Atom 3)]; [Atom 3; Node (Atom 0) (Atom 1)]], [0; 1; 2]).
+Proof. vm_compute. reflexivity. Qed.
+
 (* history_inv, FULL (the statement C05_history_inv_full of props/C05.v, verbatim): the invariant `tinv`
    (accumulator commits to the list; every tracked proof is THE authentication path of its leaf) is preserved
    by every valid history of tracked operations - appends through batch_update_from_append, mutations through
@@ -66,3 +71,54 @@ Theorem C05_peak_heights_and_indices : forall n, 0 <= n < 2 ^ 63 ->
   peak_heights_and_indices n = Some (map pk_entry (pbl64 n)).
 Proof. exact peak_heights_and_indices_spec. Qed.
 Print Assumptions C05_peak_heights_and_indices.
+
+(* the index functions of the MMR model are the REGENERATED ones: every index function of model/MmrIdxLocal.v
+   (the hand-written functions model/Mmr.v calls) equals, on ALL u64 arguments and including the panic / overflow
+   outcome None, the corresponding function of C16 - the straight-line functions of gen/MmrIndexGen.v (translated
+   from shared_basic.rs / shared_advanced.rs on every run) guarded by their generated side conditions f_ok, and
+   the loops of model/MmrIndex.v around them.  So every C05 theorem (props/C05.v, props/C05b.v) is a theorem about the index code of the
+   current source: a change of an index function in /repo changes gen/MmrIndexGen.v and this theorem has to be
+   re-proved against it. *)
+Theorem C05_index_functions_regenerated :
+  (forall i n, 0 <= i -> 0 <= n < 2 ^ 64 -> li_mt_pk i n = mm_leaf_index_to_mt_index_and_peak_index i n) /\
+  (forall i, 0 <= i < 2 ^ 64 -> rll_leaf i = mm_right_lineage_length_from_leaf_index i) /\
+  (forall x, 0 <= x < 2 ^ 64 -> MmrIdxLocal.leftmost_ancestor x = mm_leftmost_ancestor x) /\
+  (forall i, 0 <= i < 2 ^ 64 -> l2n i = mm_leaf_index_to_node_index i) /\
+  (forall n, 0 <= n < 2 ^ 64 -> num_nodes n = mm_num_leafs_to_num_nodes n) /\
+  (forall x h, 0 <= x < 2 ^ 64 -> 0 <= h < 2 ^ 32 -> MmrIdxLocal.left_sibling x h = mm_left_sibling x h) /\
+  (forall x h, 0 <= x < 2 ^ 64 -> 0 <= h < 2 ^ 32 -> MmrIdxLocal.right_sibling x h = mm_right_sibling x h) /\
+  (forall x, 0 <= x < 2 ^ 64 -> rll_and_height x = mm_right_lineage_length_and_own_height x) /\
+  (forall x, 0 <= x < 2 ^ 64 -> rll_node x = mm_right_lineage_length_from_node_index x) /\
+  (forall x, 0 <= x < 2 ^ 64 -> parent x = mm_parent x) /\
+  (forall n, 0 <= n < 2 ^ 64 -> node_indices_added_by_append n = mm_node_indices_added_by_append n) /\
+  (forall start peak nc, 0 <= start < 2 ^ 64 ->
+     get_authentication_path_node_indices start peak nc = mm_get_authentication_path_node_indices start peak nc) /\
+  (forall n, 0 <= n < 2 ^ 64 ->
+     mm_get_peak_heights_and_peak_node_indices n =
+     match peak_heights_and_indices n with Some l => Some (map fst l, map snd l) | None => None end).
+Proof. exact index_functions_regenerated. Qed.
+Print Assumptions C05_index_functions_regenerated.
+
+(* the parent / sibling step written inline in the update routines, in terms of the regenerated functions *)
+Theorem C05_up_info_regenerated : forall x, 0 <= x < 2 ^ 64 ->
+  up_info x =
+  match mm_right_lineage_length_and_own_height x with
+  | None => None
+  | Some (rac, h) =>
+      if negb (rac =? 0)
+      then let? s := mm_left_sibling x h in let? p := add64 x 1 in Some (true, s, p)
+      else let? s := mm_right_sibling x h in let? q := shl1 (h + 1) in let? p := add64 x q in Some (false, s, p)
+  end.
+Proof. exact tie_up_info. Qed.
+Print Assumptions C05_up_info_regenerated.
+
+Theorem C05_step_up_regenerated : forall x, 0 <= x < 2 ^ 64 ->
+  step_up x =
+  match mm_right_lineage_length_and_own_height x with
+  | None => None
+  | Some (rac, h) =>
+      if negb (rac =? 0) then let? p := add64 x 1 in Some (true, p)
+      else let? q := shl1 (h + 1) in let? p := add64 x q in Some (false, p)
+  end.
+Proof. exact tie_step_up. Qed.
+Print Assumptions C05_step_up_regenerated.
